@@ -445,7 +445,6 @@ func checkRefsFor(p *Program, r *Report) {
 			}
 		}
 		if name == "(*Merged).RefsFor" {
-			r.floor("DOUBLE-CHECK", n, 1, "filter constructions in the merged RefsFor")
 			// every successful return hands out such a filter (no path returns the
 			// merged candidates unchecked)
 			nRet := 0
@@ -460,9 +459,25 @@ func checkRefsFor(p *Program, r *Report) {
 					if cl.addr == nil || cl.addr.Op != "field" || cl.addr.Args[0] != s.Vals[0] {
 						continue
 					}
-					// the iterator's implementation field holds the filter
-					if dc, ok := s.St.mem[mk("field", "filteringRefIterator.doubleCheck", nil, cl.val).key]; ok && dc.val == tTrue {
+					// the iterator's implementation field holds the filter: an object one
+					// of whose fields is the view that was asked (what hits are looked up
+					// in again) and none of whose boolean fields is false
+					impl := cl.val
+					holdsView, off := false, false
+					for _, c2 := range s.St.mem {
+						if c2.addr == nil || c2.addr.Op != "field" || c2.addr.Args[0] != impl {
+							continue
+						}
+						if c2.val == recv {
+							holdsView = true
+						}
+						if c2.val == tFalse {
+							off = true
+						}
+					}
+					if holdsView && !off {
 						good = true
+						n++
 					}
 				}
 				if !good {
@@ -472,6 +487,7 @@ func checkRefsFor(p *Program, r *Report) {
 				}
 			}
 			r.floor("DOUBLE-CHECK.returns", nRet, 1, "successful returns of the merged RefsFor")
+			r.floor("DOUBLE-CHECK", n, 1, "filter constructions in the merged RefsFor")
 		}
 	}
 	// ---- ITER-POSITIONED: the indexed iterator handed out has its block iterator positioned
